@@ -250,6 +250,20 @@ func IORolesOf(s GenomeSpec) IORoles {
 
 // WellFormed checks M1 on a library genome. ancestors may be nil. It leaves g.Phenotype as it found it.
 func WellFormed(g *genetics.Genome, ancestors IORoles) error {
+	if err := wellFormedStructure(g, ancestors); err != nil {
+		return err
+	}
+	saved := g.Phenotype
+	_, err := g.Genesis(g.Id)
+	g.Phenotype = saved
+	if err != nil {
+		return fmt.Errorf("genome can not be expressed as a network: %v", err)
+	}
+	return nil
+}
+
+// wellFormedStructure is WellFormed without the expression clause: it does not run any library code besides plain lookups.
+func wellFormedStructure(g *genetics.Genome, ancestors IORoles) error {
 	if len(g.Genes) == 0 {
 		return fmt.Errorf("genome %d has no genes", g.Id)
 	}
@@ -321,19 +335,15 @@ func WellFormed(g *genetics.Genome, ancestors IORoles) error {
 			return fmt.Errorf("ancestor node %d changed role from %d to %d", id, role, n.NeuronType)
 		}
 	}
-	saved := g.Phenotype
-	_, err := g.Genesis(g.Id)
-	g.Phenotype = saved
-	if err != nil {
-		return fmt.Errorf("genome can not be expressed as a network: %v", err)
-	}
 	return nil
 }
 
 // SpecWellFormed validates a generated specification against the same clauses before it is handed to the library
 // (a generator bug must not look like a library bug).
 func SpecWellFormed(s GenomeSpec) error {
-	return WellFormed(s.Build(), nil)
+	// structure only: whether the library can express the genome is for the checks to find out, a library that can not must
+	// not look like a generator bug
+	return wellFormedStructure(s.Build(), nil)
 }
 
 /* ------------------------------------------------------------------------------------------------
